@@ -302,6 +302,28 @@ def rule_stale(report, prog):
     report.check(len(rn) == 1, 'C18-R5', key(f.qname, 'None without a target'), f.loc(), 'exchange() without target no longer returns None')
 
 
+def rule_stale_link(report, prog):
+    """R5 (LLCP): connect() reuses one LogicalLinkController for every activation round, and activate() reports bool(self.mac).
+    The link object of an earlier round must therefore be dropped before anything in activate() can return: every exit of
+    activate() lies behind an assignment to self.mac made in this call, and the first one stores None."""
+    f = prog.func('nfc.llcp.llc.LogicalLinkController.activate')
+    cfg = cfg_of(f)
+    sets = [n for n in cfg.nodes if n.kind == 'stmt' and isinstance(n.ast, ast.Assign) and any(norm(t) == 'self.mac' for t in n.ast.targets)]
+    clr = [n for n in sets if norm(n.ast.value) == 'None']
+    rets = [n for n in cfg.nodes if n.kind == 'stmt' and isinstance(n.ast, ast.Return)]
+    uses_mac = any('self.mac' in norm(r.ast.value) for r in rets if r.ast.value is not None)
+    okk = bool(clr) and cfg.exit not in cfg.reachable(cfg.entry, avoid_nodes=clr, labels_excluded=('exc',)) and \
+        all(not (s_ in cfg.reachable(cfg.entry, avoid_nodes=clr)) for s_ in sets if s_ not in clr)
+    report.check(okk or not uses_mac, 'C18-R5', key(f.qname, 'link object of an earlier activation is dropped before any exit'), f.loc(),
+                 'activate() can return bool(self.mac) without having reset self.mac in this call: after one successful activation a failed '
+                 'one still reports an established link')
+    drv = [n for n in cfg.nodes if n.ast is not None and n.kind in ('stmt', 'test') and any(
+        isinstance(c, ast.Call) and norm(c.func) == 'mac.activate' for c in walk_no_nested(n.ast))]
+    report.check(bool(drv) and bool(clr) and all(cfg.dominates(clr[0], d) for d in drv), 'C18-R5',
+                 key(f.qname, 'link object reset before the NFC-DEP activation is attempted'), f.loc(),
+                 'the NFC-DEP activation can run while the link object of an earlier round is still stored')
+
+
 def run(report, prog, tier):
     rule_typestate(report, prog)
     rule_returns(report, prog)
@@ -309,6 +331,7 @@ def run(report, prog, tier):
     rule_card_loop(report, prog)
     rule_sense(report, prog)
     rule_stale(report, prog)
+    rule_stale_link(report, prog)
     # a tag that fails its activation commands is skipped, connect() keeps polling: the activation boundary of nfc.tag (shared with C16-R4)
     from .c16 import rule_activate
     rule_activate(report, prog, rule='C18-R2')
@@ -318,6 +341,10 @@ def run(report, prog, tier):
 
 C = 'nfc.clf'
 MUTANTS = [
+    ('llc-activate-keeps-old-link', 'nfc.llcp.llc', """        assert isinstance(mac, (nfc.dep.Initiator, nfc.dep.Target))
+        self.mac = None
+""", """        assert isinstance(mac, (nfc.dep.Initiator, nfc.dep.Target))
+""", 'C18-R5'),
     ('release-without-connect', C, """                    if options['on-connect'](tag):
                         if options['beep-on-connect']:""", """                    if options['on-connect'](tag) or True:
                         if options['beep-on-connect']:""", 'C18-NONE'),
